@@ -134,6 +134,7 @@ type EmitJ struct {
 type SubCase struct {
 	Connected      []string `json:"connected"`                 // targets the connection manager knows
 	SubscribeFails []string `json:"subscribe_fails,omitempty"` // connected targets whose client.Subscribe returns an error
+	PollFails      []string `json:"poll_fails,omitempty"`      // connected targets whose client.Poll returns an error (the target went away after subscribing)
 	Msgs           []MsgJ   `json:"msgs"`
 	End            string   `json:"end"` // eof | cancel : what Recv returns after the last message
 	MD             bool     `json:"md,omitempty"`
@@ -342,6 +343,9 @@ func genCase(p profile) func(t *rapid.T) SubCase {
 			for _, tg := range c.Connected {
 				if chance(t, "target.subfails", 1, 14) {
 					c.SubscribeFails = append(c.SubscribeFails, tg)
+				}
+				if chance(t, "target.pollfails", 1, 6) {
+					c.PollFails = append(c.PollFails, tg)
 				}
 			}
 		}
@@ -568,11 +572,12 @@ type clientEvent struct {
 
 // fakeClient is the southbound client of one target.
 type fakeClient struct {
-	target   string
-	cur      func() int
-	subFails bool
-	events   []clientEvent
-	handler  baseClient.ProtoHandler // what the real client would feed target responses to
+	target    string
+	cur       func() int
+	subFails  bool
+	pollFails bool
+	events    []clientEvent
+	handler   baseClient.ProtoHandler // what the real client would feed target responses to
 }
 
 func (c *fakeClient) note(kind string) {
@@ -593,7 +598,14 @@ func (c *fakeClient) Subscribe(_ context.Context, q baseClient.Query) error {
 	return nil
 }
 
-func (c *fakeClient) Poll() error  { c.note("poll"); return nil }
+func (c *fakeClient) Poll() error {
+	c.note("poll")
+	if c.pollFails {
+		// the poll reached this client; that its target cannot be polled must not keep the poll from the others
+		return errors.NewUnavailable("target %s: poll could not be sent", c.target)
+	}
+	return nil
+}
 func (c *fakeClient) Close() error { c.note("Close"); return nil }
 func (c *fakeClient) Capabilities(context.Context, *gpb.CapabilityRequest) (*gpb.CapabilityResponse, error) {
 	c.note("Capabilities")
@@ -990,7 +1002,7 @@ func runSubCase(c SubCase, x *vstat.Ctx) error {
 	}
 	conns := &fakeConns{clients: map[string]*fakeClient{}}
 	for _, tg := range c.Connected {
-		conns.clients[tg] = &fakeClient{target: tg, cur: func() int { return st.recvCalls - 1 }, subFails: contains(c.SubscribeFails, tg)}
+		conns.clients[tg] = &fakeClient{target: tg, cur: func() int { return st.recvCalls - 1 }, subFails: contains(c.SubscribeFails, tg), pollFails: contains(c.PollFails, tg)}
 	}
 	w := &world{c: c, x: x, conns: conns, stream: st, emitted: make([]bool, len(c.Emits))}
 	var harnessErr error
